@@ -6,9 +6,11 @@ CONSTANTS
   KF_FindUnitRelock = FALSE
   MaxOps = 3
   ExportOps = 2
+  RedactNeedsTLSRecord = FALSE
   KeyFamily = "cover"
   DumpFile = "c19.ndjson"
 INVARIANTS
   NoSecretInReplies
   OthersUnchanged
   RefuseWithoutTLS
+  FailedSubmitLeavesUnit
